@@ -302,11 +302,13 @@ def best_greatest(card, heights):
     return best, idx
 
 
-def build_jumpoff(hjmod, n, H, Ls, started, perm):
+def build_jumpoff(hjmod, n, H, Ls, started, perm, prior=None):
     """pre-state inside a jump-off at its first bar position.  Regular part: H rising heights, legal cards on which every athlete
     is out and at least two are tied for first (countback), at least one of them not retired -> those are re-instated
     (one attempt per height).  started=False: the jump-off bar has not been set yet; started=True: it has been set (any height,
-    also lower than before) and each participant has had at most its one attempt; at least one participant is still to jump."""
+    also lower than before) and each participant has had at most its one attempt; at least one participant is still to jump.
+    prior='x' / 'o': a first jump-off height (any bar) has been completed before, with every participant failing resp. clearing it, so the
+    tie stands and the pre-state is at the second jump-off height (mixed, passed or retired first columns are outside this family)."""
     eng = E.cur()
     comp = hjmod.HighJumpCompetition()
     hs = []
@@ -333,10 +335,17 @@ def build_jumpoff(hjmod, n, H, Ls, started, perm):
     part = [z3.And(top[j], z3.Not(cm.retired[j])) for j in range(n)]
     eng.add(z3.Sum([z3.If(t, 1, 0) for t in top]) >= 2)
     eng.add(z3.Or(part))
+    if prior == 'o':
+        # a lone participant who clears a jump-off height has won: the jump-off goes on only if at least two cleared
+        eng.add(z3.Sum([z3.If(t, 1, 0) for t in part]) >= 2)
     is_part = [bool(mkbool(z3.simplify(p))) for p in part]          # decided per path (forks)
     hjo = None
     heights_all = list(hs)
     jo_cols = [None] * n
+    if prior:
+        hjo1 = z3.Int(eng.fresh_name('hjo1'))
+        eng.add(z3.And(hjo1 > 0, hjo1 <= 400))
+        heights_all.append(hjo1)
     if started:
         hjo = z3.Int(eng.fresh_name('hjo'))
         eng.add(z3.And(hjo > 0, hjo <= 400))
@@ -362,10 +371,14 @@ def build_jumpoff(hjmod, n, H, Ls, started, perm):
         jm = hjmod.Jumper(bib=BIBS[j], order=j + 1)
         card = list(cards[j])
         jumped = z3.BoolVal(False)
+        if prior and is_part[j]:
+            while len(card) < H:
+                card.append('')
+            card.append(prior)
         if started and is_part[j]:
             jumped_here = bool(mkbool(z3.simplify(jo_cols[j].n == 1)))
             if jumped_here:
-                while len(card) < H:
+                while len(card) < H + (1 if prior else 0):
                     card.append('')
                 card.append(jo_cols[j])
                 any_jo_trial = z3.BoolVal(True)
@@ -413,7 +426,9 @@ def build_jumpoff(hjmod, n, H, Ls, started, perm):
             fu = z3.If(idx == i, cum, fu)
         none = idx < 0
         return (z3.If(el, z3.If(none, 3, 2), z3.If(none, 1, 0)), -best, fa, fu)
-    entry = not bool(mkbool(z3.simplify(any_jo_trial)))
+    # (after a first jump-off height that everybody failed, the latest ranking was again made with everybody out; after one that
+    # everybody cleared it was made with the participants still in)
+    entry = (not bool(mkbool(z3.simplify(any_jo_trial)))) and prior != 'o'
     ks = [key_now(j, entry) for j in range(n)]
 
     def lt(a, b):
@@ -430,7 +445,7 @@ def build_jumpoff(hjmod, n, H, Ls, started, perm):
     pre = Pre()
     pre.comp, pre.cm, pre.cards, pre.hs, pre.n, pre.H, pre.Ls = comp, cm, full_cards, heights_all, n, len(heights_all), Ls
     pre.state, pre.no_trials, pre.order = 'jumpoff', False, order
-    pre.is_part, pre.started, pre.jo_cols, pre.Hreg = is_part, started, jo_cols, H
+    pre.is_part, pre.started, pre.jo_cols, pre.Hreg, pre.prior = is_part, started, jo_cols, H, prior
     return pre
 
 
